@@ -3,6 +3,8 @@ package main
 import (
 	"fmt"
 	"strings"
+
+	simdjson "github.com/minio/simdjson-go"
 )
 
 func init() {
@@ -38,6 +40,9 @@ func suiteParse(rn *runner, r *rng, tier string) {
 	if tier == "thorough" {
 		n = 100000
 	}
+	// carry: a ParsedJson kept (by value, so that it survives failed calls) from an earlier successful parse of this
+	// suite and handed to later cases as the reuse argument: acceptance and the exposed document must not depend on it
+	var carry *simdjson.ParsedJson
 	for i := 0; i < n; i++ {
 		cr := r.fork()
 		cfg := defaultCfg(cr)
@@ -60,11 +65,32 @@ func suiteParse(rn *runner, r *rng, tier string) {
 			text, kind = t, "ndtext"
 		}
 		nd := cr.chance(1, 4)
+		if cr.chance(1, 8) && kind != "ndtext" { // large enough for the concurrent path
+			text = "[" + strings.Repeat(" ", 8200+cr.intn(200)) + text + "]"
+			kind += "L"
+		}
 		tc := parseCase(cr, text, nd, cr.chance(1, 2), kind)
-		rn.add(tc)
+		useCarry := carry != nil && cr.chance(1, 3)
+		if useCarry {
+			reuse := carry
+			first := true
+			rn.addWith(tc, func() {
+				if first {
+					nextParse.reuse = reuse
+					first = false
+				}
+			})
+			kind += "+reuse"
+		} else {
+			rn.add(tc)
+		}
 		oc := "err"
 		if len(tc.impl) > 0 && strings.HasPrefix(tc.impl[0], "ok") {
 			oc = "ok"
+			if pj := lastStore.pjs["p"]; pj != nil && !nd && (carry == nil || cr.chance(1, 4)) { // ParseND results carry no parser state
+				h := *pj
+				carry = &h
+			}
 		}
 		tc.class = fmt.Sprintf("%s/%s/nd=%v/%s", kind, oc, nd, sizeClass(len(text)))
 		rn.rep.Distribution[tc.class]++
